@@ -13,7 +13,7 @@ pub fn gen_scenario(r: &mut Rng, big: bool) -> Scenario {
     let mut args = vec!["-t".to_string(), nblock.to_string()];
     let mut wo_stack: Option<String> = None;
     // names: any bytes incl. empty, whitespace, non-ASCII UTF-8
-    const NAMES: [&str; 8] = ["776f726b6572", "", "c3a9c3a8", "20782020", "e697a5e69cac", "61", "6d61696e2d6c6f6f70", "09"];
+    const NAMES: [&str; 11] = ["776f726b6572", "", "c3a9c3a8", "20782020", "e697a5e69cac", "61", "6d61696e2d6c6f6f70", "09", "696f0a776f726b6572", "0a61", "610a0a62"];
     // names the kernel reports that are not valid UTF-8: a lone continuation / lead byte, a multi-byte character cut in
     // half by the 15-byte limit — in the middle of the list, so that readable names follow an unreadable one
     const BAD_NAMES: [&str; 4] = ["ff", "72656e6465722de697a5e69cace8aa", "c3", "61ff62"];
@@ -56,6 +56,17 @@ pub fn gen_scenario(r: &mut Rng, big: bool) -> Scenario {
             path.extend_from_slice(*r7.pick(&[&b"\xff\xfe_file.bin"[..], &b"caf\xc3\xa9.dat"[..], &b"\xc3"[..], &b"a\xf0\x9f\x98\x80b"[..]]));
             args.push("-f".into());
             args.push(crate::rng::hex(&path));
+        }
+    }
+    // open files that have been unlinked since (the kernel reports "<path> (deleted)"): descriptors like any other
+    {
+        let mut r8 = Rng::new(r.0 ^ 0x3e6c_1f2b_d9ab_1f83);
+        if r8.chance(1, 4) {
+            for k in 0..r8.range(1, 3) {
+                let path = format!("{}/gone_{}_{}.tmp", crate::live::run_dir("shared"), r8.next() % 100000, k).into_bytes();
+                args.push("-U".into());
+                args.push(crate::rng::hex(&path));
+            }
         }
     }
     if r.chance(1, 2) {
